@@ -286,7 +286,7 @@ def run(ctx):
             return decide_equal(_pt(m), direct)
 
         def _pt(m):
-            P = [m.attrs[k] for k in ('start', 'control1', 'control2', 'end')]
+            P = [m.attrs[k] for k in ('start', 'control', 'control1', 'control2', 'end') if k in m.attrs]
             return bernstein(P, T)
         ob('R10.4').run(f, '%s(Path, ...) delegates per segment with the same parameters' % fn, th_d, judge_d,
                         opts={'presign': [nonzero(O), (tfs['a'] - 1, '-+')]})
